@@ -128,10 +128,6 @@ def ctor(repo: Repo, tier):
 def take_ctor(rep: Report, cc, prefixes, rule="O.constructors", skip_keys=(), optional=()):
     """Copy findings of the selected clauses; abstain (AnalysisError) when a sub-check the clauses need could not run.
     ``optional`` prefixes contribute findings when available but do not force an abstention."""
-    for tag, ex in cc.errors.items():
-        if any(tag.startswith(p.rstrip(".")) or p.startswith(tag) for p in prefixes) and not any(
-                tag.startswith(o.rstrip(".")) or o.startswith(tag) for o in optional):
-            raise ex
     n = 0
     for k, f in sorted(cc.findings.items()):
         if not any(f["clause"].startswith(p) for p in prefixes):
@@ -141,6 +137,11 @@ def take_ctor(rep: Report, cc, prefixes, rule="O.constructors", skip_keys=(), op
         n += 1
         rep.finding("%s/%s" % (rule, f["clause"]), f["construct"], f["key"],
                     f["message"] + (" [%d abstract runs]" % f["count"]), line=f["line"], witness=f["witness"])
+    # a sub-check that could not run makes the check incomplete (the findings of the completed ones stand)
+    for tag, ex in cc.errors.items():
+        if any(tag.startswith(p.rstrip(".")) or p.startswith(tag) for p in prefixes) and not any(
+                tag.startswith(o.rstrip(".")) or o.startswith(tag) for o in optional):
+            raise ex
     rep.stats["abstract_runs"] = rep.stats.get("abstract_runs", 0) + cc.n_runs
     rep.stats["order_types"] = rep.stats.get("order_types", 0) + cc.n_ordertypes
     rep.stats["resolution_R"] = cc.R
